@@ -99,7 +99,12 @@ func (m *Monitor) ResetHealthCheck(config *hc.HealthCheck) error {
 	if err := config.Validate(); err != nil {
 		return err
 	}
-	if !config.Checker.Equal(m.config.Checker) {
+	// the checker may be absent from either section ("if the checker is null,
+	// then TCP checker will be selected"): Checker is an interface, it has no
+	// method to call then.
+	sameChecker := config.Checker == nil && m.config.Checker == nil ||
+		config.Checker != nil && config.Checker.Equal(m.config.Checker)
+	if !sameChecker {
 		checker, err := newChecker(config)
 		if err != nil {
 			m.checker = tcp.NewChecker()
